@@ -42,7 +42,7 @@ Definition entry_deps (deps : list nat) (entry : list (list (option nat))) : lis
   map2 (fun dd col => match col with [Some x] => DIdx (off fb dd + x) | _ => DBefore 0 end) deps entry.
 
 Lemma entry_deps_expected deps : forall entry,
-  Forall (fun dd => dd < nf fb) deps -> entry_ok fb deps entry = true ->
+  Forall (fun dd => isact fb dd = true) deps -> entry_ok fb deps entry = true ->
   map2 (fun d col => match col with
                      | [Some x] => match first_variable_for_level fb d x with Some v => DIdx v | None => DBefore 0 end
                      | _ => DBefore 0
@@ -55,14 +55,29 @@ Proof.
   now rewrite (f1_first_var fb HF1 dd x Hdd Hc).
 Qed.
 
+Lemma simple_offset_in fs : forall f o, simple_offset fb fs f = Some o -> In f fs.
+Proof.
+  induction fs as [|g gs IH]; intros f o H; cbn [simple_offset] in H; [discriminate|].
+  destruct (g =? f) eqn:E; [apply Nat.eqb_eq in E; now left|].
+  destruct (simple_offset fb gs f) as [o'|] eqn:E'; [|discriminate]. right. now apply (IH f o').
+Qed.
+
+Lemma first_var_act f l v : first_variable_for_level fb f l = Some v -> isact fb f = true.
+Proof.
+  unfold first_variable_for_level. rewrite (f1_is_complex fb HF1 f).
+  destruct (l <? nlevels fb f); [|discriminate].
+  destruct (simple_offset fb (simple_act fb) f) as [o|] eqn:E; [|discriminate]. intros _.
+  apply simple_offset_in in E. rewrite (f1_simple_act fb HF1) in E. now apply (isact_In fb f).
+Qed.
+
 (** the shape of every [FDerivation] of an F1 record *)
 Lemma deriv_shape d deps f :
   In (FDerivation d deps f) (fl_constraints fb) ->
   exists fd w l lv,
     nth_error (fl_design fb) f = Some fd /\ ff_window fd = Some w /\ nth_error (ff_levels fd) l = Some lv /\
-    f < nf fb /\ l < nlevels fb f /\ d = off fb f + l /\
+    isact fb f = true /\ l < nlevels fb f /\ d = off fb f + l /\
     deps = map (entry_deps (win_deps w)) (lv_accepts lv) /\
-    Forall (fun dd => dd < nf fb) (win_deps w) /\
+    Forall (fun dd => isact fb dd = true) (win_deps w) /\
     Forall (fun entry => entry_ok fb (win_deps w) entry = true) (lv_accepts lv).
 Proof.
   intros Hin. pose proof (in_f1_facts fb HF1) as F. pose proof (f1_derivations fb F) as HD.
@@ -76,14 +91,14 @@ Proof.
   destruct (first_variable_for_level fb f l) as [v|] eqn:Ev; [|discriminate].
   rewrite !andb_true_iff in HD2. destruct HD2 as [[_ Hd] Hdeps]. apply Nat.eqb_eq in Hd.
   apply (list_eqb'_eq _ (list_eqb'_eq _ didx_eqb_eq)) in Hdeps.
-  assert (Hf : f < nf fb) by (unfold nf; apply nth_error_Some; congruence).
+  assert (Hf : isact fb f = true) by (exact (first_var_act f l v Ev)).
   assert (Hl' : l < nlevels fb f) by lia.
   rewrite (f1_first_var fb HF1 f l Hf Hl') in Ev.
   assert (Hd' : d = off fb f + l) by congruence.
   destruct (f1_tables fb F f fd Efd) as [Htab _]. unfold tables_ok in Htab. rewrite Ew in Htab.
   apply andb_true_iff in Htab. destruct Htab as [Hlt Hent]. rewrite forallb_forall in Hlt, Hent.
-  assert (Hlt' : Forall (fun dd => dd < nf fb) (win_deps w)).
-  { apply Forall_forall. intros dd Hdd. apply Nat.ltb_lt. now apply Hlt. }
+  assert (Hlt' : Forall (fun dd => isact fb dd = true) (win_deps w)).
+  { apply Forall_forall. intros dd Hdd. now apply Hlt. }
   assert (Hent' : Forall (fun entry => entry_ok fb (win_deps w) entry = true) (lv_accepts lv)).
   { specialize (Hent lv (nth_error_In _ _ Elv)). rewrite forallb_forall in Hent. now apply Forall_forall. }
   assert (Hdeps' : deps = map (entry_deps (win_deps w)) (lv_accepts lv)).
@@ -96,7 +111,7 @@ Proof.
 Qed.
 
 Lemma entry_deps_idx deps : forall entry x,
-  Forall (fun dd => dd < nf fb) deps -> entry_ok fb deps entry = true ->
+  Forall (fun dd => isact fb dd = true) deps -> entry_ok fb deps entry = true ->
   In x (entry_deps deps entry) -> exists i, x = DIdx i /\ i < vpt fb.
 Proof.
   induction deps as [|dd deps IH]; intros [|col entry] x Hd He Hx; cbn [entry_ok] in He; try discriminate;
